@@ -11,6 +11,7 @@ def dispatch (j : Json) : Except String Json := do
   | "str" => handleStr j
   | "dump" => handleDump j
   | "load" => handleLoad j
+  | "loadv1" => handleLoadV1 j
   | x => throw s!"unknown op {x}"
 
 def handleLine (line : String) : String :=
